@@ -294,12 +294,20 @@ func (p *parser) scan() (tkn token.Token, literal string, idx file.Idx) { //noli
 					p.skipSingleLineComment()
 					continue
 				case '*':
+					var lineTerminator bool
 					if p.mode&StoreComments != 0 {
-						comment := string(p.readMultiLineComment())
-						p.comments.AddComment(ast.NewComment(comment, idx))
-						continue
+						var comment []rune
+						comment, lineTerminator = p.readMultiLineComment()
+						p.comments.AddComment(ast.NewComment(string(comment), idx))
+					} else {
+						lineTerminator = p.skipMultiLineComment()
 					}
-					p.skipMultiLineComment()
+					if lineTerminator {
+						// 7.4: a comment spanning lines counts as a line terminator
+						// for automatic semicolon insertion and restricted productions.
+						p.insertSemicolon = false
+						p.implicitSemicolon = true
+					}
 					continue
 				default:
 					// Could be division, could be RegExp literal
@@ -479,15 +487,21 @@ func (p *parser) readSingleLineComment() []rune {
 	return result[:len(result)-1]
 }
 
-func (p *parser) readMultiLineComment() []rune {
+// readMultiLineComment returns the text of the comment and whether it contains a
+// line terminator (7.4: such a comment acts as a line terminator in the grammar).
+func (p *parser) readMultiLineComment() ([]rune, bool) {
 	var result []rune
+	lineTerminator := false
 	p.read()
 	for p.chr >= 0 {
 		chr := p.chr
 		p.read()
 		if chr == '*' && p.chr == '/' {
 			p.read()
-			return result
+			return result, lineTerminator
+		}
+		if isLineTerminator(chr) {
+			lineTerminator = true
 		}
 
 		result = append(result, chr)
@@ -495,7 +509,7 @@ func (p *parser) readMultiLineComment() []rune {
 
 	p.errorUnexpected(0, p.chr)
 
-	return result
+	return result, lineTerminator
 }
 
 func (p *parser) skipSingleLineComment() {
@@ -507,18 +521,24 @@ func (p *parser) skipSingleLineComment() {
 	}
 }
 
-func (p *parser) skipMultiLineComment() {
+// skipMultiLineComment reports whether the comment contains a line terminator.
+func (p *parser) skipMultiLineComment() bool {
+	lineTerminator := false
 	p.read()
 	for p.chr >= 0 {
 		chr := p.chr
 		p.read()
 		if chr == '*' && p.chr == '/' {
 			p.read()
-			return
+			return lineTerminator
+		}
+		if isLineTerminator(chr) {
+			lineTerminator = true
 		}
 	}
 
 	p.errorUnexpected(0, p.chr)
+	return lineTerminator
 }
 
 func (p *parser) skipWhiteSpace() {
